@@ -445,3 +445,70 @@ def eof_kind_protocol(ctx, P):
     ctx.check(P + ':eof-kind:makers-reviewed', 'R-who', 'io::ErrorKind::UnexpectedEof (read by the packet parser as a clean end of the stream) is constructed only by the %d reviewed functions' % len(EOF_MAKERS),
               not extra and len(makers) >= 4 and bool(consumers), makers=makers, consumers=consumers,
               missing=['%s (%s) constructs UnexpectedEof: a packet parser above it would end cleanly' % (p, makers[p]) for p in extra] or None)
+
+
+EOF_HELPERS = r'types::packet::PacketLength::try_from_reader$|packet::header::PacketHeader::try_from_reader$|parsing_reader::BufReadParsing::(read_u8|read_be_u16|read_be_u32|read_le_u16|read_arr|read_arr_boxed|take_bytes|read_take)$'
+
+
+def eof_helper_not_leaked(ctx, P):
+    """The parsing helpers report a short read as io::ErrorKind::UnexpectedEof — right at the top of a packet stream (that is how
+    the packet parser finds its end), wrong inside a reader of the message stack: there a short read means the *container* is
+    truncated, and if the helper's error escapes through `?` a packet parser further up reads it as a clean end.  In `&mut self`
+    functions of the reader stack, the result of such a helper is therefore never propagated unmapped."""
+    n = 0
+    for p, r in sorted(ctx.f.bodies.items()):
+        if r.get('derived') or '::tests::' in p or r['kind'] == 'Closure':
+            continue
+        if not re.match(r'(<)?(composed::message::reader::|crypto::(aead|sym)::decryptor::)', p):
+            continue
+        if r['nargs'] < 1 or not re.match(r"&(?:'\w+ )?mut ", r['locals'][1]['ty']):
+            continue
+        b = ctx.wrap(r)
+        hs = b.calls(EOF_HELPERS)
+        if not hs:
+            ctx.functions.discard(p)
+            continue
+        for k, (i, t) in enumerate(hs):
+            n += 1
+            d = t['d']
+            # where does the helper's Result go: a Try::branch on it (leak) or something else first (map_err, match, is_ok)
+            leak = None
+            for j, tt in b.calls(r'ops::Try::branch$'):
+                if tt['args'] and 'l' in tt['args'][0] and not tt['args'][0]['pr']:
+                    og = b.operand_origins(tt['args'][0])
+                    direct = tt['args'][0]['l'] == d['l']
+                    if direct or (has_origin(og, 'cs:%s#%d$' % (re.escape(p), i)) and not has_origin(og, r'call:.*Result::<.*>::map_err$|call:.*map_err$')):
+                        leak = j
+            ctx.check('%s:eof-helper-mapped:%s#%d' % (P, p, k + 1), 'R-err', 'the UnexpectedEof of %s inside %s does not escape unmapped (a truncated container is not an end of stream)' % (t['f']['fn'].split('::')[-1], p.split('::')[-1]),
+                      leak is None, function=p, site=site(b, i), missing=None if leak is None else 'propagated with `?` at %s: a packet parser above this reader ends cleanly on it' % site(b, leak))
+    ctx.floor(P + ':eof-helper-mapped:floor', 'uses of EOF-raising parsing helpers inside the reader stack', n, 1)
+
+
+def output_buffer_index_guarded(ctx, P):
+    """`how the consumer asks for it (any buffer sizes)`: a `Read::read` implementation that writes into the caller's buffer by
+    index does so only behind a test that involves that buffer's length (an empty request returns Ok(0); a count read into the buffer
+    was found non-zero).  Without it a zero-length request indexes out of bounds."""
+    n = 0
+    for p, r in sorted(ctx.f.bodies.items()):
+        if r.get('derived') or '::tests::' in p or not (r.get('impl_trait', '').endswith('io::Read') and r.get('name') == 'read'):
+            continue
+        b = ctx.wrap(r)
+        sites_ = []
+        for i, blk in enumerate(b.blocks):
+            t = blk['t']
+            if not blk['c'] and t['k'] == 'assert' and str(t.get('ak', '')).startswith('BoundsCheck'):
+                og = set()
+                for o in t.get('o', []):
+                    og |= b.operand_origins(o)
+                if has_origin(og, r'^param:2$'):
+                    sites_.append(i)
+        if not sites_:
+            ctx.functions.discard(p)
+            continue
+        n += 1
+        dom = b.dominators()
+        gs = [g for g, t in b.switches() if has_origin(b.switch_origins(g), r'^param:2$')]
+        bad = [i for i in sites_ if not any(g in dom.get(i, ()) and g != i for g in gs)]
+        ctx.check('%s:read:output-index-guarded:%s' % (P, p), 'R-dom', '%s indexes the caller\'s buffer only behind a test involving that buffer\'s length or the count read into it' % p.split(' as ')[0].lstrip('<'),
+                  not bad, function=p, sites=[site(b, i) for i in sites_], missing=['%s: no dominating test of the output buffer (a zero-length read request indexes out of bounds)' % site(b, i) for i in bad] or None)
+    ctx.floor(P + ':read:output-index:floor', 'Read::read implementations that index their output buffer', n, 2)
